@@ -28,7 +28,7 @@
 (* is ONE token >= 100000 (Tok(kind, val, style)) followed by its real line  *)
 (* ending, so header spelling variants are distinct tokens.                *)
 (*                                                                         *)
-(* The model describes the code AS IT IS; the four Fix* constants switch   *)
+(* The model describes the code AS IT IS; the Fix* constants switch   *)
 (* to the repaired behaviour of a finding (DESIGN section 6: 9, 10, 23,    *)
 (* invalid Content-Length).                                                *)
 (***************************************************************************)
@@ -40,7 +40,8 @@ CONSTANTS
   FixTE,        \* TRUE: transfer-coding matched case-insensitively on the final coding   (finding 9)
   FixNoBody,    \* TRUE: HEAD / 1xx / 204 / 304 never have a body read                  (finding 10)
   Fix1xx,       \* TRUE: interim 1xx responses are skipped                              (finding 23)
-  FixBadCL      \* TRUE: invalid Content-Length is a protocol error
+  FixBadCL,     \* TRUE: invalid Content-Length is a protocol error
+  FixTrailer    \* TRUE: the trailer is parsed leniently (no ValueError for a line without a colon)
 
 CR == 13
 LF == 10
@@ -399,7 +400,7 @@ TrailerAt(j) ==
          t == tr \o l IN
      IF Blank(l)
      THEN /\ Notify(t) /\ tr' = <<>>
-          /\ IF BadTrailer(t) THEN Raise("other_error") ELSE pc' = "fin" /\ UNCHANGED err
+          /\ IF BadTrailer(t) /\ ~FixTrailer THEN Raise("other_error") ELSE pc' = "fin" /\ UNCHANGED err
      ELSE tr' = t /\ UNCHANGED <<pc, err, recorded>>
   /\ UNCHANGED <<msgs, ref, x, eof, copen, hdr, bleft, delivered, reqRecorded, reqSent, outcome, connClosed,
                  leftover, unseen, stalled, reqRecs, respRecs, reqBlock, respBlock, linked, warcDone>>
